@@ -189,8 +189,41 @@ def c12(m, o):
     checks += 1
     if len(m.times) != n or any(abs(m.times[i] - (t0 + i * h)) > 1e-9 * (1 + abs(t1)) for i in range(min(n, len(m.times)))):
         viol.append("times %s are not start + i*timestep for %d points" % (list(m.times)[:6], n))
-    m.run(p, solver="euler", jit=False, rebuild=True)
+    shared = o.get("program") if (o.get("program") or {}).get("shared_strats") else None
+    try:
+        m.run(p, solver="euler", jit=False, rebuild=True)
+    except Exception as e:  # noqa
+        if shared is None:
+            raise
+        import impl
+        m3, e3, _ = impl.build(dict(shared, shared_strats=False, obs=[]))
+        m3.run(p, solver="euler", jit=False)
+        viol.append("the model runs when it is the only user of its Stratification objects, and fails with %s when the same "
+                    "objects were also applied to a second model before the run" % repr(e)[:120])
+        return {"checks": checks + 1, "violations": viol}
     out = np.asarray(m.outputs)
+    if shared is not None:
+        # two fresh builds of the definition, one whose Stratification objects are also applied to a second model
+        # before the first run, one that keeps them to itself: the same results
+        import impl
+        m3, e3, _ = impl.build(dict(shared, shared_strats=False, obs=[]))
+        m3.run(p, solver="euler", jit=False)
+        o3 = np.asarray(m3.outputs)
+        ms, es, _ = impl.build(dict(shared, obs=[]))
+        checks += 1
+        try:
+            ms.run(p, solver="euler", jit=False)
+            os_ = np.asarray(ms.outputs)
+        except Exception as e:  # noqa
+            os_ = None
+            viol.append("the model runs when it is the only user of its Stratification objects, and fails with %s when the same "
+                        "objects were also applied to a second model before the run" % repr(e)[:120])
+        if os_ is not None and (o3.shape != os_.shape or not np.array_equal(o3, os_, equal_nan=True)):
+            same = o3.shape == os_.shape
+            j = int(np.argmax(np.abs(o3[0] - os_[0]))) if same else 0
+            viol.append("the outputs change when the model's Stratification objects are also applied to a second model before the "
+                        "run: row 0, column %s holds %.12g instead of %.12g"
+                        % (names[j] if j < len(names) else j, os_[0][j] if same else float("nan"), o3[0][j] if same else float("nan")))
     checks += 1
     if out.shape != (len(m.times), len(names)):
         viol.append("outputs shape %s, expected (%d, %d)" % (out.shape, len(m.times), len(names)))
@@ -1810,8 +1843,61 @@ def c11(m, o):
             viol.append("after an unrelated model was run with its own solver options, a rebuilt run of the same object no longer "
                         "reproduces its first run bit for bit (default solver)")
 
+    def same_numbers_elsewhere():
+        """a different model that uses the same literal numbers at other sites (initial values, splits and infectiousness
+        adjustments rotated among compartments / strata) is built and run in between: this model's next runs, on the
+        same runner and on a rebuilt one, reproduce its first run bit for bit"""
+        nonlocal checks
+        full = [c for c in calls if c["call"] == "run" and len(c.get("params") or {}) >= 4]
+        if not full:
+            return
+        given = fl(full[0]["params"])
+        prog2 = json.loads(json.dumps(o["program"]))
+        changed = False
+
+        def rot(d):
+            nonlocal changed
+            ks = list(d)
+            vs = [d[k] for k in ks]
+            if len(ks) >= 2 and all(isinstance(v, (str, dict)) or v is None for v in vs) and len({json.dumps(v) for v in vs}) > 1:
+                changed = True
+                return dict(zip(ks, vs[1:] + vs[:1]))
+            return d
+        for op in prog2["ops"]:
+            if op["op"] == "pop" and all(isinstance(v, str) for v in op["dist"].values()):
+                op["dist"] = rot(op["dist"])
+            if op["op"] == "strat":
+                if op.get("split") and all(isinstance(v, str) for v in op["split"].values()):
+                    op["split"] = rot(op["split"])
+                if op.get("iadj"):
+                    op["iadj"] = {c_: rot(a_) for c_, a_ in op["iadj"].items()}
+        if not changed:
+            return
+        ma, err, why = impl.build(dict(o["program"], obs=[]))
+        try:
+            ma.run(dict(given), jit=False)
+        except BaseException:  # noqa
+            return
+        ref = bits(ma)
+        mc, _, _ = impl.build(dict(prog2, obs=[]))
+        if mc is None:
+            return
+        try:
+            mc.run(dict(given), jit=False)
+        except BaseException:  # noqa
+            pass
+        for rebuild in (False, True):
+            ma.run(dict(given), jit=False, rebuild=rebuild)
+            checks += 1
+            if bits(ma) != ref:
+                viol.append("after a different model using the same numbers at other sites was built and run, %s of this model no "
+                            "longer reproduces its first run of %s bit for bit"
+                            % ("a rebuilt run" if rebuild else "the next run on the same runner", given))
+                break
+
     whitelist_step()
     other_models_options()
+    same_numbers_elsewhere()
     first = execute(calls, "history")
     # an independently built object, the run calls alone, in reverse order, each on a rebuilt runner
     runs = [c for c in calls if c["call"] in ("run", "set_defaults")]
